@@ -1,12 +1,15 @@
 /- Model driver for the NTP server cluster (C15–C19, C21, C22): line protocol on stdin/stdout. -/
 import NtpVerif.Basic.LineIO
 import NtpVerif.Model.Server
+import NtpVerif.Model.ServerReq
 
 open NtpVerif NtpVerif.LineIO NtpVerif.Server NtpVerif.RespSize
 
 structure St where
   cfg : Config
   info : Info
+  ks : Wire.KeySet := { keys := [], idOffset := 0 }      -- byte mode: the server's key set (from the key file)
+  table : Wire.Table := []                               -- byte mode: ideal-AEAD table of the case so far
 
 def initSt : St :=
   { cfg := { denyAct := .ignore, allowAct := .ignore, requireNts := none, versions := [3, 4, 5] },
@@ -86,6 +89,68 @@ def respLine (r : Response) (n : Nat) (stats : List Stat) : String :=
   let e := if nts then r.enc.map (rfieldStr ev 0) else []
   s!"resp len={n} hdr={hexOfBytes (headerBytes r.hdr)} U={commaList u} A={commaList a} E={commaList e} mac=0 stat={statsStr stats}"
 
+/-- the per-datagram inputs and the request record the harness derived from the REAL parser's result -/
+def parseEnvReq (ws : List String) : Option (Env × Req) :=
+  let b (k : String) : Option Bool := (kv? ws k).map (· == "1")
+  let envReq : Option (Env × Req) := do
+    let rvar ← (kv? ws "rvar").bind F64.ofHex?
+    let env : Env :=
+      { inDeny := ← b "deny", inAllow := ← b "allow", rateOk := ← b "rate",
+        recv := ← kvHex64? ws "recv", now := ← kvHex64? ws "now", rvar := rvar, bufLen := ← kvNat? ws "blen" }
+    let len ← kvNat? ws "len"
+    let fv ← kvNat? ws "fv"
+    let base : Req :=
+      { len := len, fv := fv, parse := .err, version := 0, client := false, poll := 0, xmit := [], reft := [],
+        untrusted := [], auth := [], enc := [], cookie := none, encw := 0, mac := 0 }
+    match kv? ws "parse" with
+    | some "err" => pure (env, base)
+    | some "panic" => pure (env, { base with parse := .panic })
+    | some p =>
+      let parse ← (if p == "ok" then some Parse.ok else if p == "dec" then some Parse.dec else none)
+      let cookie ← (match kv? ws "ck" with
+        | some "none" => some none
+        | some s => s.toNat?.map some
+        | none => none)
+      pure (env,
+        { base with parse := parse, version := ← kvNat? ws "v", client := ← b "client", poll := ← kvNat? ws "poll",
+                    xmit := ← kvBytes? ws "xmit", reft := ← kvBytes? ws "reft",
+                    untrusted := ← (kv? ws "U").bind parseFields, auth := ← (kv? ws "A").bind parseFields,
+                    enc := ← (kv? ws "E").bind parseFields, cookie := cookie,
+                    encw := ← kvNat? ws "encw", mac := ← kvNat? ws "mac",
+                    draftOk := (kv? ws "dok") != some "0" })
+    | none => none
+  envReq
+
+def outLine (st : St) (env : Env) (req : Req) : String :=
+  match handle st.cfg st.info env req with
+  | .panic => "panic"
+  | .ignore s => s!"ignore stat={statsStr s}"
+  | .respond r n s => respLine r n s
+
+/-- `KeySetProvider::load` layout: time(8) id_offset(4) primary(4) len(4) keys(64 each) -/
+def keysetOfFile (f : List UInt8) : Wire.KeySet :=
+  let n := Wire.beNat ((f.drop 16).take 4)
+  { keys := (List.range n).map fun i => (f.drop (20 + 64 * i)).take 64, idOffset := Wire.beNat ((f.drop 8).take 4) }
+
+/-- `key;nonce;aad;ct;pt` (hex, `-` = empty), comma separated; `-` = none -/
+def seals? (w : String) : Option (List Wire.Entry) :=
+  if w == "-" then some [] else
+  (w.splitOn ",").mapM fun e =>
+    match (e.splitOn ";").mapM bytesOfHex? with
+    | some [key, nonce, aad, ct, pt] => some { key := key, nonce := nonce, aad := aad, ct := ct, pt := pt }
+    | _ => none
+
+/-- fields in which the record derived here from the bytes differs from the harness's record -/
+def recDiff (a h : Req) : List String :=
+  (if a.len = h.len then [] else ["len"]) ++ (if a.fv = h.fv then [] else ["fv"]) ++
+  (if a.parse = h.parse then [] else ["parse"]) ++ (if a.version = h.version then [] else ["v"]) ++
+  (if a.client = h.client then [] else ["client"]) ++ (if a.poll = h.poll then [] else ["poll"]) ++
+  (if a.xmit = h.xmit then [] else ["xmit"]) ++
+  (if a.version = 5 ∨ a.parse = .err ∨ a.reft = h.reft then [] else ["reft"]) ++
+  (if a.untrusted = h.untrusted then [] else ["U"]) ++ (if a.auth = h.auth then [] else ["A"]) ++
+  (if a.enc = h.enc then [] else ["E"]) ++ (if a.cookie = h.cookie then [] else ["ck"]) ++
+  (if a.mac = h.mac then [] else ["mac"]) ++ (if a.draftOk = h.draftOk then [] else ["dok"])
+
 def stepLine (st : St) (line : String) : St × String :=
   let ws := words line
   match ws with
@@ -99,7 +164,10 @@ def stepLine (st : St) (line : String) : St × String :=
           | _ => none,
         versions := (splitComma ((kv? ws "vers").getD "-")).filterMap String.toNat? }
     let keysOk := (kv? ws "keysok") != some "0"
-    ({ st with cfg := cfg, info := { st.info with keysOk := keysOk } }, "ok")
+    let ks := match kvBytes? ws "keys" with
+      | some f => keysetOfFile f
+      | none => st.ks
+    ({ st with cfg := cfg, info := { st.info with keysOk := keysOk }, ks := ks, table := [] }, "ok")
   -- `updsrv`: the shared synchronisation state changes while the server lives on; for the model it is the same
   | "cfgsrv" :: _ | "updsrv" :: _ =>
     match kvNat? ws "stratum", kvBytes? ws "refid", kvNat? ws "leap", kvInt? ws "prec", kvInt? ws "rdelay",
@@ -109,41 +177,23 @@ def stepLine (st : St) (line : String) : St × String :=
                                         rootDelay := rdelay, bloom := bloom } }, "ok")
     | _, _, _, _, _, _ => (st, "bad-op")
   | "req" :: _ =>
-    let b (k : String) : Option Bool := (kv? ws k).map (· == "1")
-    let envReq : Option (Env × Req) := do
-      let rvar ← (kv? ws "rvar").bind F64.ofHex?
-      let env : Env :=
-        { inDeny := ← b "deny", inAllow := ← b "allow", rateOk := ← b "rate",
-          recv := ← kvHex64? ws "recv", now := ← kvHex64? ws "now", rvar := rvar, bufLen := ← kvNat? ws "blen" }
-      let len ← kvNat? ws "len"
-      let fv ← kvNat? ws "fv"
-      let base : Req :=
-        { len := len, fv := fv, parse := .err, version := 0, client := false, poll := 0, xmit := [], reft := [],
-          untrusted := [], auth := [], enc := [], cookie := none, encw := 0, mac := 0 }
-      match kv? ws "parse" with
-      | some "err" => pure (env, base)
-      | some "panic" => pure (env, { base with parse := .panic })
-      | some p =>
-        let parse ← (if p == "ok" then some Parse.ok else if p == "dec" then some Parse.dec else none)
-        let cookie ← (match kv? ws "ck" with
-          | some "none" => some none
-          | some s => s.toNat?.map some
-          | none => none)
-        pure (env,
-          { base with parse := parse, version := ← kvNat? ws "v", client := ← b "client", poll := ← kvNat? ws "poll",
-                      xmit := ← kvBytes? ws "xmit", reft := ← kvBytes? ws "reft",
-                      untrusted := ← (kv? ws "U").bind parseFields, auth := ← (kv? ws "A").bind parseFields,
-                      enc := ← (kv? ws "E").bind parseFields, cookie := cookie,
-                      encw := ← kvNat? ws "encw", mac := ← kvNat? ws "mac",
-                      draftOk := (kv? ws "dok") != some "0" })
-      | none => none
-    match envReq with
+    match parseEnvReq ws with
     | none => (st, "bad-op")
-    | some (env, req) =>
-      match handle st.cfg st.info env req with
-      | .panic => (st, "panic")
-      | .ignore s => (st, s!"ignore stat={statsStr s}")
-      | .respond r n s => (st, respLine r n s)
+    | some (env, req) => (st, outLine st env req)
+  | "reqb" :: _ =>
+    -- byte mode: the record is computed HERE from the request bytes with the parser model over the ideal-AEAD
+    -- table; the record the harness derived from the real parser is only cross-checked
+    match parseEnvReq ws, kvBytes? ws "msg", (kv? ws "seals").bind seals? with
+    | some (env, hreq), some bytes, some entries =>
+      let table : Wire.Table := entries ++ st.table
+      let fv := match bytes with
+        | [] => 0
+        | b0 :: _ => (b0.toNat / 8) % 8
+      let own := reqOf (Wire.Table.decrypt table) st.ks bytes fv hreq.encw
+      let d := recDiff own hreq
+      let flag := if d.isEmpty then "" else "record-mismatch:" ++ ",".intercalate d ++ " "
+      ({ st with table := table }, flag ++ outLine st env own)
+    | _, _, _ => (st, "bad-op")
   | _ => (st, "bad-op")
 
 def main (_args : List String) : IO Unit := do
